@@ -86,7 +86,7 @@ class C07(core.Property):
                   "Rearm.Sorted bs: the schedule's boundary instants int(b*1e9) are non-decreasing in schedule order",
                   "Rearm.LossyAt bs t (old-timer theorems only): some boundary stamped t reads back (ns/1e9) strictly before itself"]
     variants = ["current"]
-    quick_cases = 400
+    quick_cases = 330
     thorough_cases = 3000
     case_timeout_s = 60
     pool_workers = 1   # a case takes ~0.1 s in-process; the fork pool only adds stalls on a loaded machine
